@@ -820,6 +820,8 @@ func (r *reader) read(src []byte) {
 			r.pushChar(src)
 		case intMode:
 			r.pushInteger(src)
+		case bitVectorMode:
+			r.pushObject(ReadBitVector(r.makeToken(src)))
 		}
 		if 0 < len(r.stack) {
 			r.partial("list not terminated")
